@@ -9,7 +9,7 @@ SM = "src/smtmapping.rs"
 UNIT = Unit(
     name="seal", lemma_obs=['lemma_chain_next'], uses="group_core_axioms",
     prelude=["core.rs", "raw.rs", "iter.rs", "crypto.rs", "state_abs.rs"],
-    lemmas=["sums.rs", "iterlem.rs", "coinsview.rs", "tips.rs", "apply.rs", "header.rs", "seal_opaque.rs", "stateinv.rs", "batch_opaque.rs", "sealenv_opaque.rs", "seal_def.rs", "feemul.rs"],
+    lemmas=["sums.rs", "iterlem.rs", "coinsview.rs", "tips.rs", "apply.rs", "header.rs", "txroot_opaque.rs", "seal_opaque.rs", "stateinv.rs", "batch_opaque.rs", "sealenv_opaque.rs", "seal_def.rs", "feemul.rs"],
     items=[
         TypeItem(S, "struct", "UnsealedState"),
         TypeItem(S, "struct", "SealedState", subst=[("(UnsealedState<C>, Option<ProposerAction>)", "(pub UnsealedState<C>, pub Option<ProposerAction>)")]),
@@ -23,7 +23,6 @@ UNIT = Unit(
         Fn(SM, "root_hash", impl="SmtMapping", mode="assume", wrap=SMT_WRAP, **smt_root_hash()),
         Fn(SS, "unlock_old", impl="StakeSet", mode="assume", **ss_unlock_old()),
         Fn(SS, "pre_tip911", impl="StakeSet", mode="assume", sig_subst=[("novasmt::Tree<InMemoryCas>", "novasmt::Tree<InMemoryCas>")], **ss_pre_tip911()),
-        Raw("pub struct InMemoryCas {} impl ContentAddrStore for InMemoryCas {}"),
         Fn(S, "tip_condition", impl="UnsealedState", home="C17", implicit_props=("C09",), **st_tip_condition()),
         Fn(S, "tip_901", impl="UnsealedState", home="C17", implicit_props=("C09",), **st_tip(42700)),
         Fn(S, "tip_906", impl="UnsealedState", home="C20", implicit_props=("C09",), **st_tip(830000)),
@@ -69,7 +68,7 @@ UNIT = Unit(
            injects=[Inject("before_tail", "proof { lemma_chain_next(self.0, new); }")]),
         Fn(T, "iter", impl="TransactionSet", mode="assume", sig_subst=[("impl Iterator<Item = &Transaction>", "Vec<&Transaction>")], **ts_iter()),
         Fn(S, "to_block", impl="SealedState", home="C06", implicit_props=("C09", "C06", "C08"),
-           requires=[C("chain", "chain_ok(self.0)")],
+           requires=[C("chain", "chain_ok(self.0) && txs_keyed(self.0.transactions@)")],
            ensures=[C("block", "res.header == spec_header(self.0) && res.proposer_action == self.1 && res.transactions@ == self.0.transactions@.values()", "C06", "C08")],
            rewrites=[("ANF", "collect", 0, 3, {1: """proof {
                let ks = choose|ks: Seq<TxHash>| is_enum(self.0.transactions@, ks) && __c0@.len() == ks.len() && (forall|i: int| 0 <= i < ks.len() ==> *(#[trigger] __c0@[i]) == self.0.transactions@[ks[i]]);
